@@ -241,6 +241,15 @@ def derive_case(draw):
     return case
 
 
+FP_TAG = "xkey-roundtrip:parent-fingerprint-lost"
+
+
+def blocked(out):
+    """True when the case has a violation other than the (independent) lost-parent-fingerprint finding, i.e. when
+    going on would only produce follow-up noise"""
+    return any(t != FP_TAG for t, _ in out.violations)
+
+
 def _cmp(out, cond, tag, detail):
     if not cond:
         out.violate(tag, detail)
@@ -411,7 +420,6 @@ def run_derive(case):
     pub_chain_len = 0
     step = "root"
     ctx = "net=%s path=m" % net
-    rpriv = rnode if rnode.secret is not None else None
     rcur = rnode
     nodes = 0
     for depth_i in range(len(path) + 1):
@@ -435,7 +443,7 @@ def run_derive(case):
         check_roundtrip(out, L, rcur.xpub(vpub), rcur, net, False, ctx)
         if depth_i == len(path) or depth_i == 0:
             check_address_api(out, L, rcur, net, ctx)
-        if out.violations:
+        if blocked(out):
             break
         if depth_i == len(path):
             break
@@ -480,7 +488,7 @@ def run_derive(case):
 
     # ---- corruptions of the final node's strings --------------------------------------------------------------
     effective = 0
-    if not out.violations:
+    if not blocked(out):
         for op in case["corrupt"]:
             target = op["target"]
             if target == "xprv" and rcur.secret is None:
@@ -491,6 +499,12 @@ def run_derive(case):
             if bad is None:
                 out.label("corruption_ineffective")
                 continue
+            try:
+                B58.decode_check(bad)
+                out.label("corruption_still_valid_by_reference")    # 2^-32 accident, not a violation
+                continue
+            except B58.Base58RefError:
+                pass
             effective += 1
             out.label("corrupt_%s_%s" % (target, op["kind"]))
             if target == "address":
@@ -524,7 +538,7 @@ def run_derive(case):
                 else:
                     out.violate("corrupt-xkey-accepted:" + op["kind"], "%s (from %s) decoded to %s" % (
                         bad, text, k.extended_key_string()))
-    if case.get("malformed") and not out.violations:
+    if case.get("malformed") and not blocked(out):
         kind = case["malformed"]
         raw = malformed_xkey(kind, rcur, net, case["mbyte"])
         if raw is None:
@@ -539,9 +553,14 @@ def run_derive(case):
             else:
                 again = k.extended_key_string()
                 if again != text:
-                    # accepted AND not the key the string spells: decoding changed the key / the string
-                    out.violate("malformed-xkey-accepted:" + kind, "%s (raw %s) decoded, re-encodes as %s" % (
-                        text, raw.hex(), again))
+                    zeroed = B58.encode_check(raw[:5] + b"\0" * 4 + raw[9:]) if len(raw) == 78 else None
+                    if kind == "zero_depth_nonzero_fp" and again == zeroed:
+                        # same root cause as every other parsed key: the parent fingerprint is dropped
+                        out.violate("xkey-roundtrip:parent-fingerprint-lost", "%s -> parse -> %s" % (text, again))
+                    else:
+                        # accepted AND not the key the string spells: decoding changed the key / the string
+                        out.violate("malformed-xkey-accepted:" + kind, "%s (raw %s) decoded, re-encodes as %s" % (
+                            text, raw.hex(), again))
                 else:
                     out.label("malformed_%s_accepted_same_string" % kind)   # don't-care: statement is silent
     out.nontrivial = (hardened >= 1 and normal >= 1) or effective >= 1
